@@ -250,6 +250,11 @@ def open_bound_within_2eps(pb, steps):
             continue
         for iv in a.conditions:
             lo, hi = ttsem._abs(iv.lower, s, d), ttsem._abs(iv.upper, s, d)
+            # the two artificial events lo + eps / hi - eps of an open interval cross when the interval is shorter than the
+            # shifts (same root cause, no interfering event needed)
+            shift = (eps if iv.is_left_open() else 0) + (eps if iv.is_right_open() else 0)
+            if shift and hi - lo < shift:
+                return True
             for j, other in enumerate(inst):
                 if j == i:
                     continue
